@@ -6,7 +6,17 @@ use std::pin::Pin;
 use std::sync::atomic::{AtomicUsize, Ordering};
 use std::sync::Arc;
 use std::task::{Context, Poll};
+#[cfg_attr(feature = "verif-hooks", allow(unused_imports))]
 use std::time::Instant;
+
+/// Clock behind the latency samples fed to the algorithm.
+#[cfg(not(feature = "verif-hooks"))]
+#[inline]
+fn clock_now() -> Instant {
+    Instant::now()
+}
+#[cfg(feature = "verif-hooks")]
+use tower_resilience_core::verif::clock::now as clock_now;
 use tokio::sync::Semaphore;
 use tower_service::Service;
 
@@ -100,7 +110,7 @@ where
     }
 
     fn call(&mut self, req: Req) -> Self::Future {
-        let start = Instant::now();
+        let start = clock_now();
         self.in_flight.fetch_add(1, Ordering::Relaxed);
 
         let future = self.inner.call(req);
@@ -124,7 +134,7 @@ where
         AdaptiveFuture {
             inner: Box::pin(async move {
                 let result = future.await;
-                let latency = start.elapsed();
+                let latency = clock_now().duration_since(start);
 
                 // Decrement in-flight counter
                 in_flight.fetch_sub(1, Ordering::Relaxed);
